@@ -457,6 +457,8 @@ UNITS["tasks"] = dict(
              bounds="pipeline thread runs mark_as_done to completion at any of the submitter's synchronisation operations (lock poll, guard drop, notified() creation, Notified poll) or afterwards"),
         dict(name="unit::proofs::two_waiters_both_return", prop="C14", timeout=300, encodes="two Task::ready futures vs Task::mark_as_done", bounds="as above, two submitters stepped alternately"),
         dict(name="unit::proofs::tracked_submission_completes", prop="C14", tier="thorough", timeout=1500, encodes="TaskTracker::track, Task::ready vs TaskTracker::mark_as_done", bounds="as above, through the tracker"),
+        dict(name="unit::proofs::concurrent_track_of_same_operation", prop="C14", timeout=900, encodes="TaskTracker::track x2 interleaved, TaskTracker::mark_as_done, Task::ready",
+             bounds="submitter B's whole track(id) runs at any synchronisation operation of submitter A's track(id) (or afterwards); one mark_as_done"),
         dict(name="unit::proofs::resubmission_after_completion_completes", prop="C14", timeout=300, encodes="TaskTracker::{track, mark_as_done}, Task::ready", bounds="submit, duplicate submit, completion, re-submit, completion (sequential)"),
     ],
 )
@@ -565,7 +567,7 @@ PROPS["C40"] = dict(
     trusted_base=["Kani 0.68 / CBMC 6.11 / cadical", "staging: harness module appended to sync_metrics.rs inside the real p2panda crate (scratch copy)",
                   "model: std HashMap/HashSet -> inline-array contract models"],
     assumptions=["a session's events follow the lifecycle the sync layer emits (SessionStarted, SyncStarted, SyncFinished{sync metrics}, optional LiveModeStarted, SessionFinished{final = sync + live metrics})",
-                 "byte counts < 2^16 per phase (no u32 overflow)", "OperationReceived events (boxed operations) are not generated"],
+                 "byte counts < 2^16 per phase (no u32 overflow)", "one OperationReceived event (carrying the live counts) per live session"],
     bounds="one and two sessions, every interleaving of two lifecycles, symbolic byte counts",
     outside="more than two concurrent sessions; u32 overflow of the totals; events outside the documented lifecycle order",
     level_text=("Bounded model checking of the real Aggregator::process over session lifecycle scripts with symbolic byte counts and a symbolic scheduler interleaving two sessions: the totals equal "
